@@ -623,6 +623,9 @@ pub fn run(cfg: &Cfg, rep: &mut Report, spec: &Spec) {
     if spec.prop == "C07" {
         crate::props::scale::run(cfg, rep, spec.prop);
     }
+    if spec.prop == "C12" {
+        crate::props::narrow::run(cfg, rep, spec.prop);
+    }
     let n = cfg.per_shard(spec.quick, spec.thorough);
     let mut reported = 0;
     for i in 0..n {
